@@ -311,7 +311,7 @@ def _g_channels(rep):
     rep.guarded("R-C11-guard", C11.rule_validate)
     rep.guarded("R-C11-scratch", C11.rule_points)
     rep.guarded("R-C11-default-mask", C11.rule_default_mask)
-    rep.floor("R-C11-default-mask", 8)
+    rep.floor("R-C11-default-mask", 7)
     rep.floor("R-C11-guard", 40)
     rep.floor("R-C11-index", 64)
     rep.floor("R-C11-count", 14)
